@@ -19,7 +19,7 @@ REQUIRED_THEOREMS = ["ext_roundtrip", "opt_header_unique", "decode_encode", "enc
                      "accepted_step_is_spec", "refused_when", "refused_is_noop", "refused_calls_are_skippable",
                      "refused_proxy_leaves_nothing",
                      # WebSocket write side (coap_ws_write / coap_ws_close)
-                     "ws_frame_wellformed", "ws_close_frame_wellformed", "ws_frames_wellformed", "ws_spec_reads_written",
+                     "ws_frame_wellformed", "ws_close_frame_wellformed", "ws_write_whole", "ws_close_then_silent", "ws_frames_wellformed", "ws_spec_reads_written",
                      "ws_write_read_roundtrip", "ws_payload_roundtrip", "ws_write_sequence_roundtrip",
                      "ws_partial_writes_one_frame", "ws_partial_writes_sequence", "ws_send_receive"]
 NOT_PROVED = []
